@@ -122,6 +122,13 @@ impl<'a> IrEmitter<'a> {
                         };
                         quote! { #lit_tok }
                     }
+                    IrExprKind::Float(f) if !f.is_finite() => {
+                        if *f > 0.0 {
+                            quote! { f64::INFINITY }
+                        } else {
+                            quote! { f64::NEG_INFINITY }
+                        }
+                    }
                     IrExprKind::Float(f) => {
                         let lit_tok = proc_macro2::Literal::f64_unsuffixed(*f);
                         quote! { #lit_tok }
